@@ -167,6 +167,47 @@ func cmdRelayout(args []string) {
 			}
 			return " " + g.text + " "
 		})
+		// layout at scale: long runs of blanks, of blank lines, deep indentation, long comments (counters and windows of fixed size);
+		// whole-file re-scans of long texts are expensive in the model, so only a few small bases get them
+		scaleBase := map[string]bool{"base/define": true, "base/func": true, "base/comments": true}
+		globAll := glob
+		glob = func(op string, f func(g gap, i int) string) {
+			if scaleBase[baseID] {
+				globAll(op, f)
+			}
+		}
+		glob("blank40", func(g gap, i int) string {
+			if g.hasNl || i == 0 || i == last || g.text == "" {
+				return g.text
+			}
+			return strings.Repeat(" ", 40) + strings.Repeat("\t", 3)
+		})
+		glob("blanklines12", func(g gap, i int) string { return strings.ReplaceAll(g.text, "\n", strings.Repeat("\n", 12)) })
+		glob("blanklines300first", func(g gap, i int) string {
+			if i == 0 {
+				return strings.Repeat("\n", 300) + g.text
+			}
+			return g.text
+		})
+		glob("indent40", func(g gap, i int) string {
+			if i == last {
+				return g.text
+			}
+			return strings.ReplaceAll(g.text, "\n", "\n"+strings.Repeat("\t", 40))
+		})
+		firstNl := -1
+		for i, g := range gaps {
+			if g.hasNl && i != last && firstNl < 0 {
+				firstNl = i
+			}
+		}
+		glob("longcomments", func(g gap, i int) string { // one long line comment and one long block comment, at the first line break only
+			if i != firstNl {
+				return g.text
+			}
+			return strings.Replace(g.text, "\n", " // "+strings.Repeat("long comment ", 90)+"\n/* "+strings.Repeat("x ", 700)+"*/\n", 1)
+		})
+		glob = globAll
 		r := rand.New(rand.NewSource(seed*7919 + int64(bi)))
 		for k := 0; k < nrand; k++ {
 			gs := append([]gap{}, gaps...)
